@@ -94,6 +94,84 @@ def imp(w, key, real=False, targets=None):
     return e
 
 
+def imp_spin(w, key, pattern, real=False, targets=None):
+    """the text ``key`` with spin labels on every index: pattern 'a' (all alpha), 'b', or
+    'm' (alternating by letter position: i,a alpha; j,b beta; ...)"""
+    import re
+    from adcgen import import_from_sympy_latex, get_symbols
+
+    def spin_of(name):
+        if pattern in "ab":
+            return pattern
+        pos = max("ijklmno".find(name[0]), "abcdefgh".find(name[0]), "pqrstuvw".find(name[0]))
+        return "ab"[pos % 2]
+
+    def label(m):
+        names = re.findall(r"[a-z][0-9]*", m.group(2))
+        greek = {"a": "\\alpha", "b": "\\beta"}
+        return m.group(1) + "{" + "".join(
+            n + "_{" + greek[spin_of(n)] + "}" for n in names) + "}"
+    txt = re.sub(r"([\^_])\{((?:[a-z][0-9]*)+)\}", label, TXT[key])
+    e = import_from_sympy_latex(txt, convert_default_names=True)
+    if real:
+        e.make_real()
+    if targets is not None:
+        names = re.findall(r"[a-z][0-9]*", targets)
+        e.set_target_idx(get_symbols(names, [spin_of(n) for n in names]) if names else "")
+    return e
+
+
+def _num_name(n):
+    """numbered spelling of some of the letters (numbers below the generic generations)"""
+    return {"j": "j1", "k": "k2", "b": "b1", "c": "c2", "l": "l1", "d": "d2"}.get(n, n)
+
+
+def imp_num(w, key, real=False, targets=None):
+    """the text ``key`` with numbered names for some of its indices (i stays i, j -> j1,
+    k -> k2, ...): the same request on names with digits"""
+    import re
+    from adcgen import import_from_sympy_latex
+
+    def label(m):
+        names = re.findall(r"[a-z][0-9]*", m.group(2))
+        return m.group(1) + "{" + "".join(_num_name(n) for n in names) + "}"
+    txt = re.sub(r"([\^_])\{((?:[a-z][0-9]*)+)\}", label, TXT[key])
+    e = import_from_sympy_latex(txt, convert_default_names=True)
+    if real:
+        e.make_real()
+    if targets is not None:
+        e.set_target_idx("".join(_num_name(n) for n in targets))
+    return e
+
+
+# spin-labelled twins of requests on plain indices: same names, other index objects
+for _key, _tg in (("sym3", "ia"), ("perm_sym", "ijab"), ("alpha3", "")):
+    for _pat in ("a", "m"):
+        def _mk(key, tg, pat):
+            plain = f"expr.spintwin.plain({key})"
+            if plain not in BY_ID:
+                @tmpl(plain, "expr", None, cost=2)
+                def _(w):
+                    from adcgen import simplify
+                    e = imp(w, key, targets=tg)
+                    sym = [[(str(k), v) for k, v in t.symmetry().items()] for t in e.terms]
+                    osym = [[(str(k), v) for k, v in o.symmetry().items()]
+                            for t in e.terms for o in t.objects]
+                    return [sym, osym, str(simplify(e)), str(e.copy().substitute_contracted())]
+            vid = f"expr.spintwin.{pat}({key})"
+            NAMEVAR.setdefault(plain, []).append(vid)
+
+            @tmpl(vid, "expr", None, cost=2)
+            def _(w):
+                from adcgen import simplify
+                e = imp_spin(w, key, pat, targets=tg)
+                sym = [[(str(k), v) for k, v in t.symmetry().items()] for t in e.terms]
+                osym = [[(str(k), v) for k, v in o.symmetry().items()]
+                        for t in e.terms for o in t.objects]
+                return [sym, osym, str(simplify(e)), str(e.copy().substitute_contracted())]
+        _mk(_key, _tg, _pat)
+
+
 # ----------------------------------------------------------------------------- operators
 for _v in ("mp", "re"):
     def _mk(v):
@@ -1025,6 +1103,33 @@ for _backend in ("einsum", "libtensor"):
             e = imp(w, "pairs", real=True, targets="de")
             return generate_code(e, "de", backend=backend)
     _mk(_backend)
+
+
+# the same code generation requests on numbered index names
+for _key, _tg in (("code3", "ijab"), ("contr2", "ac"), ("pairs", "de")):
+    for _backend in ("einsum", "libtensor"):
+        def _mk(key, tg, backend):
+            @tmpl(f"code.generate_code({key}_num,{backend})", "expr", None, cost=2)
+            def _(w):
+                from adcgen import generate_code
+                e = imp_num(w, key, real=True, targets=tg)
+                return generate_code(e, "".join(_num_name(n) for n in tg), backend=backend)
+        _mk(_key, _tg, _backend)
+
+for _key, _tg in (("sym3", "ia"), ("perm_sym", "ijab"), ("alpha3", "")):
+    def _mk(key, tg):
+        vid = f"expr.numtwin({key})"
+        NAMEVAR.setdefault(f"expr.spintwin.plain({key})", []).append(vid)
+
+        @tmpl(vid, "expr", None, cost=2)
+        def _(w):
+            from adcgen import simplify
+            e = imp_num(w, key, targets=tg)
+            sym = [[(str(k), v) for k, v in t.symmetry().items()] for t in e.terms]
+            osym = [[(str(k), v) for k, v in o.symmetry().items()]
+                    for t in e.terms for o in t.objects]
+            return [sym, osym, str(simplify(e)), str(e.copy().substitute_contracted())]
+    _mk(_key, _tg)
 
 
 @tmpl("code.optimize_contractions(pairs)", "expr", None)
